@@ -95,9 +95,9 @@ Record mstate := {
   triples : list (str * Z * Z)     (* RDF: subject '#id', predicate, object *)
 }.
 
-Inductive merr := EValue | EKey | EAssert | EAttr | EUnfeasible | ENetworkX | EBadArg.
+Inductive merr := EValue | EKey | EAssert | EAttr | EUnfeasible | ENetworkX | EFuel | EBadArg.
 Definition merr_code (e : merr) : Z :=
-  match e with EValue => 1 | EKey => 2 | EAssert => 3 | EAttr => 4 | EUnfeasible => 5 | ENetworkX => 6 | EBadArg => 9 end.
+  match e with EValue => 1 | EKey => 2 | EAssert => 3 | EAttr => 4 | EUnfeasible => 5 | ENetworkX => 6 | EFuel => 8 | EBadArg => 9 end.
 
 Inductive mres (T : Type) := MOk (x : T) | MErr (e : merr).
 Arguments MOk {T} x. Arguments MErr {T} e.
@@ -538,21 +538,21 @@ Fixpoint lex_topo (fuel : nat) (s : mstate) (g : graph) (done : list ref) : list
       end
   end.
 
-(* networkx.ancestors *)
-Fixpoint ancestors_fuel (fuel : nat) (g : graph) (frontier seen : list ref) : list ref :=
+(* networkx.ancestors: every node with a path to r.  Breadth-first with explicit fuel; None = fuel exhausted
+   before the fixpoint (excluded by the theorems, reported as error 8 by the interpreter). *)
+Definition add_new (seen : list ref) (cands : list ref) : list ref :=
+  fold_left (fun acc r => if mem_ref r acc then acc else acc ++ [r]) cands seen.
+
+Fixpoint ancestors_fuel (fuel : nat) (g : graph) (frontier seen : list ref) : option (list ref) :=
   match fuel with
-  | O => seen
+  | O => None
   | S f =>
-      let new := filter (fun r => negb (mem_ref r seen))
-                        (flat_map (preds g) frontier) in
-      let new' := fold_left (fun acc r => if mem_ref r acc then acc else acc ++ [r]) new [] in
-      match new' with
-      | [] => seen
-      | _ => ancestors_fuel f g new' (seen ++ new')
-      end
+      let seen' := add_new seen (flat_map (preds g) frontier) in
+      if Nat.eqb (length seen') (length seen) then Some seen
+      else ancestors_fuel f g (skipn (length seen) seen') seen'
   end.
-Definition ancestors (g : graph) (r : ref) : list ref :=
-  ancestors_fuel (length (nodes g)) g [r] [].
+Definition ancestors (g : graph) (r : ref) : option (list ref) :=
+  ancestors_fuel (S (S (length (nodes g)))) g [r] [].
 
 Definition node_eq (g : graph) (r : ref) : option (eid * bool) :=
   match find (fun n => ref_eqb (n_ref n) r) (nodes g) with
@@ -560,15 +560,31 @@ Definition node_eq (g : graph) (r : ref) : option (eid * bool) :=
   | None => None
   end.
 
+Fixpoint all_ancestors (g : graph) (req : list ref) : option (list ref) :=
+  match req with
+  | [] => Some []
+  | r :: t => match ancestors g r, all_ancestors g t with
+              | Some a, Some b => Some (a ++ b)
+              | _, _ => None
+              end
+  end.
+
+Definition required_nodes (g : graph) (req : list ref) (recurse : bool) : option (list ref) :=
+  if recurse then option_map (app req) (all_ancestors g req)
+  else Some (req ++ flat_map (preds g) req).
+
 Definition equations_for (s : mstate) (g : graph) (req : list ref) (recurse : bool) : mres (list (eid * bool)) :=
   if negb (forallb (fun r => has_node (nodes g) r) req) then MErr (if recurse then ENetworkX else EKey)
   else
-    let required := req ++ flat_map (fun r => if recurse then ancestors g r else preds g r) req in
-    let order := lex_topo (length (nodes g)) s g [] in
-    if negb (Nat.eqb (length order) (length (nodes g))) then MErr EUnfeasible
-    else MOk (flat_map (fun r => if mem_ref r required
-                                 then match node_eq g r with Some x => [x] | None => [] end
-                                 else []) order).
+    match required_nodes g req recurse with
+    | None => MErr EFuel
+    | Some required =>
+        let order := lex_topo (length (nodes g)) s g [] in
+        if negb (Nat.eqb (length order) (length (nodes g))) then MErr EUnfeasible
+        else MOk (flat_map (fun r => if mem_ref r required
+                                     then match node_eq g r with Some x => [x] | None => [] end
+                                     else []) order)
+    end.
 
 (* ---- role queries (model.py:96-173) --------------------------------------------------------------- *)
 Definition get_state_variables (s : mstate) : list vid := sort_by_order (vars s) (map fst (odef s)).
